@@ -41,8 +41,8 @@ t = t.replace('__NPROPFILES__', str(len(glob.glob(os.path.join(V, 'lean', 'Nasda
 readme = open(os.path.join(V, 'seeded', 'README.md')).read()
 m = re.search(r'(\| round \| changes .*?)\n\n', readme, re.S)
 n_seeds = len([d for d in os.listdir(os.path.join(V, 'seeded')) if re.fullmatch(r'C\d\d[a-z]', d)])
-stats = (f'{n_seeds} changes to the library are kept under `seeded/` (rounds 1–2: the previous session; rounds 3–8: this session, 40 per round (round 7: 18 aimed at regressions of the repairs; round 8: 4 aimed at the two repairs made last), two per '
-         f'property from 20 fresh sub-agents). State at the last matrix run (own check = the check of the property the change was written against):\n\n'
+stats = (f'{n_seeds} changes to the library are kept under `seeded/` (rounds 1–2: the previous session; rounds 3–8: session 3, 40 per round (round 7: 18 aimed at regressions of the repairs; round 8: 4 aimed at the two repairs made last), two per '
+         f'property from 20 fresh sub-agents; round 9: session 4, 7 changes, one per property, not yet in the matrix below — their results are in each `meta.json` and in the round-9 paragraph). State at the last matrix run (own check = the check of the property the change was written against):\n\n'
          + (m.group(1) if m else '(run tools/seedmatrix.sh seeded/MATRIX.txt && tools/seedreadme.py)'))
 t = t.replace('__SEEDSTATS__', stats)
 d = open(os.path.join(V, 'DESIGN.md')).read()
